@@ -8,6 +8,9 @@ CONSTANTS
   SchemaListRollback = TRUE
   DeleteClassUndo = TRUE
   RollbackScope = "repository"
+  DeleteClassInstances = "subtree-first"
+  NsAlias = "nocase"
+  MultiNsDelete = "all-first"
 INVARIANT Atomic
 INVARIANT Completes
 CHECK_DEADLOCK FALSE
